@@ -815,6 +815,9 @@ class _LRun:
                 if it == ('L1', 'values') and isinstance(s.target, ast.Name):
                     self.run(s.body, {**env, s.target.id: ('D2',)}, depth, dfilter)
                     continue
+                if it == ('L2',) and isinstance(s.target, ast.Name) and self.is_extract_leaf(s.body, s.target.id, env):
+                    self.out.append((self.sel, dfilter, 'extract'))
+                    continue
                 if it == ('L2',) and isinstance(s.target, ast.Name) and len(s.body) == 1 and isinstance(s.body[0], ast.Expr) \
                         and isinstance(s.body[0].value, ast.Yield) and s.body[0].value.value is not None:
                     y = s.body[0].value.value
@@ -824,8 +827,46 @@ class _LRun:
             if isinstance(s, ast.Expr) and isinstance(s.value, ast.YieldFrom) and self.ev(s.value.value, env, depth) == ('L2',):
                 self.out.append((self.sel, dfilter, 'files'))
                 continue
+            if isinstance(s, ast.Expr) and isinstance(s.value, ast.Call) and ast.unparse(s.value.func) == 'os.makedirs':
+                continue        # creates a directory on disk: no effect on what is walked
             raise TranslateError(f'line {s.lineno}: listing: statement {ast.unparse(s)[:60]!r} not understood')
         return dfilter
+
+    DEST = '\x01DEST'
+
+    def is_extract_leaf(self, body, info: str, env: dict) -> bool:
+        """with open(os.path.join(<destination argument>, <info>.filename), 'wb') as f: f.write(<info>.read())"""
+        if len(body) != 1 or not isinstance(body[0], ast.With) or len(body[0].items) != 1 or not isinstance(body[0].items[0].optional_vars, ast.Name):
+            return False
+        w = body[0]
+        f = w.items[0].optional_vars.id
+        o = w.items[0].context_expr
+        if not (isinstance(o, ast.Call) and is_name(o.func, 'open') and len(o.args) == 2 and not o.keywords and isinstance(o.args[1], ast.Constant) and o.args[1].value == 'wb'):
+            return False
+        j = o.args[0]
+        if not (isinstance(j, ast.Call) and ast.unparse(j.func) == 'os.path.join' and len(j.args) == 2 and not j.keywords and isinstance(j.args[0], ast.Name)
+                and env.get(j.args[0].id) == ('c', self.DEST) and ast.unparse(j.args[1]) == f'{info}.filename'):
+            return False
+        return len(w.body) == 1 and isinstance(w.body[0], ast.Expr) and ast.unparse(w.body[0].value) == f'{f}.write({info}.read())'
+
+
+def extract_walk(fn: ast.FunctionDef, cls: ast.ClassDef) -> tuple[str, str, bool]:
+    """extract_all executed: the walk it performs, and whether every FileInfo met is written as <destination>/<its listed name> with the
+    bytes read() returns"""
+    params = [a.arg for a in fn.args.posonlyargs + fn.args.args][1:]
+    if len(params) != 1:
+        return 'EOtherSel', 'DOtherSel', False
+    r = _LRun(cls)
+    try:
+        try:
+            r.run(fn_body(fn), {params[0]: ('c', _LRun.DEST)})
+        except _LRet:
+            pass
+    except (TranslateError, _LKeyError):
+        return 'EOtherSel', 'DOtherSel', False
+    if len(r.out) == 1 and r.out[0][2] == 'extract':
+        return {'all': 'EAll', 'only': 'EOnly'}.get(r.out[0][0], 'EOtherSel'), r.out[0][1], True
+    return 'EOtherSel', 'DOtherSel', False
 
 
 def listing_with_arguments(fn: ast.FunctionDef, cls: ast.ClassDef) -> list[tuple[bool, bool, str, str, bool]]:
@@ -846,7 +887,7 @@ def listing_with_arguments(fn: ast.FunctionDef, cls: ast.ClassDef) -> list[tuple
                     pass
                 if r.sel == 'none' and not r.out:
                     out.append((eg, fg, 'EOtherSel', 'DAll', True))
-                elif len(r.out) == 1:
+                elif len(r.out) == 1 and r.out[0][2] == 'files':
                     sel, df, _ = r.out[0]
                     out.append((eg, fg, {'all': 'EAll', 'only': 'EOnly'}.get(sel, 'EOtherSel'), df, True))
                 else:
@@ -895,7 +936,8 @@ def translate() -> tuple[str, dict]:
         except TranslateError as e:       # a shape that is not understood is a failed (named) obligation, not a failed translation
             walks[nm] = (f'not understood: {e}', want)
     lwalks = {nm: listing_with_arguments(find_def(vpk.body, ast.FunctionDef, nm), vpk) for nm in ('filenames', 'fileinfos')}
-    side = {'listing_with_arguments': lwalks, 'mode_table': mt, 'exit_table': rows, 'guarded': sorted(guarded), 'fileinfo_write_guarded': fw_ok, 'check_writable_def': chk_def,
+    exw = extract_walk(find_def(vpk.body, ast.FunctionDef, 'extract_all'), vpk)
+    side = {'extract_all_walk': exw, 'listing_with_arguments': lwalks, 'mode_table': mt, 'exit_table': rows, 'guarded': sorted(guarded), 'fileinfo_write_guarded': fw_ok, 'check_writable_def': chk_def,
             'other_mutating_methods': others, 'load_resets': lr_ok, 'load_resets_problems': lr_why, 'walks': {k: v[0] for k, v in walks.items()},
             'digests': {nm: ast_digest(f) for nm, f in fns.items()}}
     lines = [
@@ -920,6 +962,8 @@ def translate() -> tuple[str, dict]:
     for nm, rows in lwalks.items():
         lines.append(f'Definition g_walks_{nm} : list (bool * bool * lwalk) := [' + '; '.join(
             f'({_b(eg)}, {_b(fg)}, mkWalk {es} {ds} {_b(ev)})' for eg, fg, es, ds, ev in rows) + '].')
+    lines.append('(* extract_all executed: the walk, and "every FileInfo met is written to <destination>/<listed name> with the bytes of read()" *)')
+    lines.append(f'Definition g_extract_walk : lwalk := mkWalk {exw[0]} {exw[1]} {_b(exw[2])}.')
     lines.append('')
     return '\n'.join(lines), side
 
